@@ -55,11 +55,13 @@ type Ctx struct {
 	Funcs   map[string]bool
 	Assume  []string
 	Notes   []string
+	// Scratch carries data from a rule set to its thorough-tier extras.
+	Scratch map[string]any
 }
 
 // NewCtx creates a context for property prop.
 func NewCtx(prop string, p *Prog) *Ctx {
-	return &Ctx{Prop: prop, P: p, keys: map[string]int{}, Funcs: map[string]bool{}}
+	return &Ctx{Prop: prop, P: p, keys: map[string]int{}, Funcs: map[string]bool{}, Scratch: map[string]any{}}
 }
 
 // StartRule opens a rule instance; min is the number of obligations confirmed
